@@ -17,7 +17,8 @@
 From Coq Require Import List NArith ZArith Bool.
 From Coq.Strings Require Import Byte.
 Require Import GV.Base.Res GV.Base.Byt GV.Base.Ints GV.Model.Leb GV.Model.Prim.
-Require Import GV.Spec.ListWrSpec GV.Model.ListsWr GV.Proofs.ListsWrProofs.
+Require Import GV.Spec.ListWrSpec GV.Model.ListsWr GV.Proofs.ListsWrProofs GV.Proofs.ListsRoundtrip.
+Require GV.Spec.ListSpec GV.Model.ListsRd.
 Import ListNotations.
 Local Open Scope N_scope.
 
@@ -183,6 +184,81 @@ Proof.
   eexists. split; [vm_compute; reflexivity|]. split; [|vm_compute; reflexivity].
   split; repeat constructor; try discriminate; try (vm_compute; reflexivity).
 Qed.
+
+(* ------------------------------------------------------------------ composed with the list READER model (C08) *)
+
+(* The writer model composed with GV.Model.ListsRd (the model of read/rnglists.rs + read/loclists.rs that property C08
+   proves correct against GV.Spec.ListSpec and ties to gimli's reader by its own streams).
+   `tr_ent` / `tr_loc` translate ListWrSpec.ent to the reader's raw entry (ListSpec.lent, with the expression bytes
+   for location lists); `rd_cfg be asz version` is the unit encoding as the reader sees it; `other` is whatever the
+   section of the other format holds; x = the reader's .debug_addr context (irrelevant: no indexed entry is written).
+   Proof route: the writer's bytes ARE C08's spec encoding of the translated entries (rt_list5 / rt_list4), those are
+   well formed in C08's sense (for DWARF 2-4 this is exactly `ambiguity`), the two resolution specs agree
+   (rt_resolve_rng / rt_resolve_loc), then C08's raw_roundtrip_* / resolve_refines_* apply.
+
+   DWARF 5, every list of both tables of a unit with a real address size (1,2,4,8 — the reader refuses others):
+   the reader's RAW iterator started at offsets.get(id) yields exactly the written entries (expression bytes
+   unchanged), and its RESOLVING iterator yields exactly ListWrSpec's meaning of the written list, for every base
+   address, in both build modes. Together with write_read_v5 (same `es`): dec5 and the reader model agree on
+   everything write_rnglists / write_loclists can produce. *)
+Theorem write_read_by_reader_v5 : forall dbg be fmt64 asz attrs rstart lstart rtbl ltbl rb ro lb lo (rsec lsec other : list byte),
+  unit_write_lists be fmt64 5 asz attrs rstart lstart rtbl ltbl = Ok ((rb, ro), (lb, lo)) -> size_ok asz ->
+  N.of_nat (length rsec) = rstart -> N.of_nat (length lsec) = lstart -> unit_wf rtbl ltbl ->
+  (forall i l, nth_error rtbl i = Some l ->
+     exists o es, nth_error ro i = Some o /\ ents_of (map loc_of_range l) = Some es /\
+       ListsRd.raw_ranges_all dbg (rd_cfg be asz 5) other (rsec ++ rb) o = Ok (map ListsRd.EvItem (map tr_ent es)) /\
+       forall x base, N.of_nat (length (ListsRd.x_addr x)) < two64 ->
+         exists rs, meaning_rng asz base l = Some rs /\
+           ListsRd.ranges_all dbg (rd_cfg be asz 5) x other (rsec ++ rb) o base = Ok (map ListsRd.EvItem rs)) /\
+  (forall i l, nth_error ltbl i = Some l ->
+     exists o es, nth_error lo i = Some o /\ ents_of l = Some es /\
+       ListsRd.raw_locations_all dbg (rd_cfg be asz 5) false other (lsec ++ lb) o = Ok (map ListsRd.EvItem (map tr_loc es)) /\
+       forall x base, N.of_nat (length (ListsRd.x_addr x)) < two64 ->
+         exists rs, meaning_loc asz base l = Some rs /\
+           ListsRd.locations_all dbg (rd_cfg be asz 5) false x other (lsec ++ lb) o base = Ok (map ListsRd.EvItem rs)).
+Proof. exact rt_unit_reader_v5. Qed.
+
+(* DWARF 2-4, every list of both tables: the RAW iterator yields exactly the pairs the list is written as
+   (`pairs_of`: base selections and address-or-offset pairs, expression bytes unchanged); the RESOLVING iterator,
+   started with the base address the reader derives from the root DIE, yields exactly the meaning of the written
+   list. Together with write_read_v4: dec4 and the reader model agree on everything write_ranges / write_loc emit. *)
+Theorem write_read_by_reader_v4 : forall dbg be fmt64 version asz attrs rstart lstart rtbl ltbl rb ro lb lo (rsec lsec other : list byte),
+  unit_write_lists be fmt64 version asz attrs rstart lstart rtbl ltbl = Ok ((rb, ro), (lb, lo)) -> 2 <= version <= 4 ->
+  N.of_nat (length rsec) = rstart -> N.of_nat (length lsec) = lstart -> unit_wf rtbl ltbl ->
+  (forall i l, nth_error rtbl i = Some l ->
+     exists o ps, nth_error ro i = Some o /\ pairs_of (map loc_of_range l) = Some ps /\
+       ListsRd.raw_ranges_all dbg (rd_cfg be asz version) (rsec ++ rb) other o = Ok (map ListsRd.EvItem (map tr_ent ps)) /\
+       forall x, N.of_nat (length (ListsRd.x_addr x)) < two64 ->
+         exists rs, meaning_rng asz (unit_base attrs) l = Some rs /\
+           ListsRd.ranges_all dbg (rd_cfg be asz version) x (rsec ++ rb) other o (unit_base attrs) = Ok (map ListsRd.EvItem rs)) /\
+  (forall i l, nth_error ltbl i = Some l ->
+     exists o ps, nth_error lo i = Some o /\ pairs_of l = Some ps /\
+       ListsRd.raw_locations_all dbg (rd_cfg be asz version) false (lsec ++ lb) other o = Ok (map ListsRd.EvItem (map tr_loc ps)) /\
+       forall x, N.of_nat (length (ListsRd.x_addr x)) < two64 ->
+         exists rs, meaning_loc asz (unit_base attrs) l = Some rs /\
+           ListsRd.locations_all dbg (rd_cfg be asz version) false x (lsec ++ lb) other o (unit_base attrs) = Ok (map ListsRd.EvItem rs)).
+Proof. exact rt_unit_reader_v4. Qed.
+
+Example write_read_by_reader_ex :
+  let attrs := [(DW_AT_low_pc, VAddress (AConst 4096))] in
+  (* v4: offsets relative to low_pc, then a base selection *)
+  unit_write_lists false false 4 4 attrs 0 0 [[ROffsetPair 16 32; RBase (AConst 8192); ROffsetPair 1 2]] []
+    = Ok (([x10; x00; x00; x00; x20; x00; x00; x00; xff; xff; xff; xff; x00; x20; x00; x00;
+            x01; x00; x00; x00; x02; x00; x00; x00; x00; x00; x00; x00; x00; x00; x00; x00], [0]), ([], [])) /\
+  ListsRd.ranges_all true (rd_cfg false 4 4) no_addr_table
+    [x10; x00; x00; x00; x20; x00; x00; x00; xff; xff; xff; xff; x00; x20; x00; x00;
+     x01; x00; x00; x00; x02; x00; x00; x00; x00; x00; x00; x00; x00; x00; x00; x00] [] 0 (unit_base attrs)
+    = Ok [ListsRd.EvItem (4112, 4128); ListsRd.EvItem (8193, 8194)] /\
+  meaning_rng 4 (unit_base attrs) [ROffsetPair 16 32; RBase (AConst 8192); ROffsetPair 1 2] = Some [(4112, 4128); (8193, 8194)] /\
+  (* v5 location list: expression bytes come back unchanged *)
+  unit_write_lists false false 5 4 attrs 0 0 [] [[LDefault [x9c]; LStartLength (AConst 64) 8 [x50; x51]]]
+    = Ok (([], []), ([x15; x00; x00; x00; x05; x00; x04; x00; x00; x00; x00; x00;
+                      x05; x01; x9c; x08; x40; x00; x00; x00; x08; x02; x50; x51; x00], [12])) /\
+  ListsRd.raw_locations_all false (rd_cfg false 4 5) false []
+    [x15; x00; x00; x00; x05; x00; x04; x00; x00; x00; x00; x00;
+     x05; x01; x9c; x08; x40; x00; x00; x00; x08; x02; x50; x51; x00] 12
+    = Ok [ListsRd.EvItem (ListSpec.LDefault, [x9c]); ListsRd.EvItem (ListSpec.LStartLength 64 8, [x50; x51])].
+Proof. vm_compute. repeat split; reflexivity. Qed.
 
 (* ------------------------------------------------------------------ (5) dedup *)
 
